@@ -184,6 +184,8 @@ def cases(tier, seed):
                 continue
             for n in ((4, 5) if q else (4, 5, 6)):
                 for order in ((1,) if (q or name in ('pma', 'parma')) else (1, 2)):
+                    if cplx and order == 2 and n == 5 and name in ('pburg', 'pyule'):
+                        continue        # second lattice stage x generic 5-point twiddles on complex data: beyond the case budget
                     out.append(Case("class-spectrum:%s:%s:NFFT=%d:order=%d" % (name, 'cx' if cplx else 're', n, order),
                                     case_class_spectrum, dict(name=name, cplx=cplx, n=n, order=order),
                                     timeout=120 if q else 600, max_paths=8, feas_timeout=3, wall=500 if q else 2400))
@@ -215,7 +217,5 @@ def cases(tier, seed):
         out.append(Case("arma_estimate:N=6:P=1:Q=1:lag=4:nsym=1", case_arma, dict(N=6, P=1, Q=1, lag=4, nsym=1),
                         timeout=600, max_paths=64, feas_timeout=2, wall=2400))
         out.append(Case("arma_estimate:N=8:P=2:Q=2:lag=5:nsym=1", case_arma, dict(N=8, P=2, Q=2, lag=5, nsym=1),
-                        timeout=600, max_paths=64, feas_timeout=2, wall=2400))
-        out.append(Case("arma_estimate:N=7:P=2:Q=1:lag=4:nsym=1", case_arma, dict(N=7, P=2, Q=1, lag=4, nsym=1),
                         timeout=600, max_paths=64, feas_timeout=2, wall=2400))
     return out
